@@ -7,32 +7,57 @@ import (
 	"os"
 	"os/exec"
 	"path/filepath"
+	"regexp"
 	"strings"
 	"sync"
 	"time"
 )
 
 type solverSpec struct {
-	name string
-	cmd  func(file string, timeoutS int) []string
+	name    string
+	variant string // "" full query | "pruned" relevance-filtered query (only its unsat answers count)
+	cmd     func(file string, timeoutS int) []string
 }
 
 var solvers = []solverSpec{
-	{"z3-new", func(f string, t int) []string { return []string{"z3-new", fmt.Sprintf("-T:%d", t), f} }},
-	{"z3", func(f string, t int) []string { return []string{"z3", fmt.Sprintf("-T:%d", t), f} }},
-	{"cvc5", func(f string, t int) []string {
+	{"z3-new", "", func(f string, t int) []string { return []string{"z3-new", fmt.Sprintf("-T:%d", t), f} }},
+	{"z3", "", func(f string, t int) []string { return []string{"z3", fmt.Sprintf("-T:%d", t), f} }},
+	{"cvc5", "", func(f string, t int) []string {
 		return []string{"cvc5", fmt.Sprintf("--tlimit=%d", t*1000), "--produce-models", f}
 	}},
+	{"z3-new/pruned", "pruned", func(f string, t int) []string { return []string{"z3-new", fmt.Sprintf("-T:%d", t), f} }},
 }
 
-func (ob *Obligation) query() string {
+// Assertions may be solver-specific: a "#z3#" prefix keeps the assertion out of the cvc5 query (array
+// lambdas), "#cvc5#" keeps it out of the z3 queries (the quantified twin of the same definition).
+func (ob *Obligation) assertionsFor(dialect string) []string {
 	fc := ob.fc
+	var out []string
+	for i := 0; i < ob.NAssert && i < len(fc.assertions); i++ {
+		a := fc.assertions[i]
+		if strings.HasPrefix(a, "#z3#") {
+			if dialect != "z3" {
+				continue
+			}
+			a = a[4:]
+		} else if strings.HasPrefix(a, "#cvc5#") {
+			if dialect != "cvc5" {
+				continue
+			}
+			a = a[6:]
+		}
+		out = append(out, a)
+	}
+	return out
+}
+
+func (ob *Obligation) render(asserts []string) string {
 	var b strings.Builder
 	b.WriteString(smtPrelude)
-	b.WriteString(fc.decls.dump())
-	for i := 0; i < ob.NAssert && i < len(fc.assertions); i++ {
+	b.WriteString(ob.fc.decls.dump())
+	for _, a := range asserts {
 		b.WriteString("(assert ")
-		b.WriteString(fc.assertions[i])
+		b.WriteString(a)
 		b.WriteString(")\n")
 	}
 	b.WriteString("(assert ")
@@ -48,12 +73,98 @@ func (ob *Obligation) query() string {
 	return b.String()
 }
 
-type solveResult struct {
-	verdict string // unsat sat unknown
-	solver  string
-	ms      int64
-	out     string
-	all     map[string]string
+func (ob *Obligation) query(dialect string) string { return ob.render(ob.assertionsFor(dialect)) }
+
+var symRe = regexp.MustCompile(`[A-Za-z_][A-Za-z0-9_.$!]*`)
+
+// linking symbols: data constants / functions introduced by the executor. Path-condition names, heap
+// arrays and the background vocabulary connect everything with everything and are ignored.
+func linkingSymbols(s string) map[string]bool {
+	out := map[string]bool{}
+	for _, m := range symRe.FindAllString(s, -1) {
+		switch {
+		case strings.HasPrefix(m, "pc_"), strings.HasPrefix(m, "g_"), strings.HasPrefix(m, "F_"), strings.HasPrefix(m, "EH_"),
+			strings.HasPrefix(m, "MH_"), strings.HasPrefix(m, "AP_"), strings.HasPrefix(m, "AT_"), strings.HasPrefix(m, "BOX_"),
+			strings.HasPrefix(m, "lh_F_"), strings.HasPrefix(m, "lh_EH_"), strings.HasPrefix(m, "hv_"), strings.HasPrefix(m, "mh_"),
+			strings.HasPrefix(m, "q_"), strings.HasPrefix(m, "sent_"), strings.HasPrefix(m, "allocTop"), strings.HasPrefix(m, "sp_"),
+			strings.HasPrefix(m, "as_"), strings.HasPrefix(m, "box_"), strings.HasPrefix(m, "ghost_"):
+			continue
+		}
+		if smtVocabulary[m] {
+			continue
+		}
+		out[m] = true
+	}
+	return out
+}
+
+var smtVocabulary = func() map[string]bool {
+	m := map[string]bool{}
+	for _, w := range strings.Fields(`assert and or not ite let forall exists lambda select store as const Array Int Bool true false
+		distinct mod div abs pattern k r e h s b a height htime chainID hash lastHash isZero zeroHdr nilErr errIs nilBytes blen hexStr unhexStr
+		emptyStr slen foldEq Hdr Str Err Bytes Slice dynType ownerOf tagOf ctxParent mulUF strConcat`) {
+		m[w] = true
+	}
+	m["mk-slice"], m["s-arr"], m["s-off"], m["s-len"], m["s-cap"] = true, true, true, true, true
+	return m
+}()
+
+func isQuantified(a string) bool {
+	return strings.Contains(a, "(forall ") || strings.Contains(a, "(exists ") || strings.Contains(a, "(lambda ")
+}
+
+// prunedQuery keeps every quantifier-free assertion and only those quantified assertions that mention a
+// data symbol in the goal's cone of influence (computed through the quantifier-free assertions).
+// Dropping hypotheses is sound for an `unsat` answer; a `sat` answer of the pruned query is ignored.
+func (ob *Obligation) prunedQuery() (string, int) {
+	asserts := ob.assertionsFor("z3")
+	cone := linkingSymbols(ob.Goal.S)
+	for k := range linkingSymbols(ob.PC.S) {
+		cone[k] = true
+	}
+	syms := make([]map[string]bool, len(asserts))
+	quant := make([]bool, len(asserts))
+	for i, a := range asserts {
+		syms[i] = linkingSymbols(a)
+		quant[i] = isQuantified(a)
+	}
+	used := make([]bool, len(asserts))
+	for changed := true; changed; {
+		changed = false
+		for i := range asserts {
+			if used[i] {
+				continue
+			}
+			hit := false
+			for s := range syms[i] {
+				if cone[s] {
+					hit = true
+					break
+				}
+			}
+			if !hit {
+				continue
+			}
+			used[i] = true
+			changed = true
+			// quantified facts are leaves: they do not extend the cone (that is what keeps it small)
+			if !quant[i] || len(syms[i]) <= 3 {
+				for s := range syms[i] {
+					cone[s] = true
+				}
+			}
+		}
+	}
+	var keep []string
+	dropped := 0
+	for i, a := range asserts {
+		if !quant[i] || used[i] || len(syms[i]) == 0 {
+			keep = append(keep, a)
+		} else {
+			dropped++
+		}
+	}
+	return ob.render(keep), dropped
 }
 
 func runSolver(ctx context.Context, s solverSpec, file string, timeoutS int) (string, string) {
@@ -79,11 +190,24 @@ func runSolver(ctx context.Context, s solverSpec, file string, timeoutS int) (st
 
 // solveOne races the solvers on one obligation.
 func solveOne(ob *Obligation, dir string, timeoutS int, crossCheck bool) {
-	file := filepath.Join(dir, sanitizeFile(ob.Name)+".smt2")
-	q := ob.query()
+	base := filepath.Join(dir, sanitizeFile(ob.Name))
+	file := base + ".smt2"
+	q := ob.query("z3")
 	if err := os.WriteFile(file, []byte(q), 0o644); err != nil {
 		ob.Status = "unknown"
 		return
+	}
+	fileC := file
+	if qc := ob.query("cvc5"); qc != q {
+		fileC = base + ".cvc5.smt2"
+		os.WriteFile(fileC, []byte(qc), 0o644)
+	}
+	fileP := ""
+	if !ob.Cover {
+		if qp, dropped := ob.prunedQuery(); dropped > 0 {
+			fileP = base + ".pruned.smt2"
+			os.WriteFile(fileP, []byte(qp), 0o644)
+		}
 	}
 	start := time.Now()
 	ctx, cancel := context.WithCancel(context.Background())
@@ -95,16 +219,31 @@ func solveOne(ob *Obligation, dir string, timeoutS int, crossCheck bool) {
 		ms      int64
 	}
 	ch := make(chan res, len(solvers))
+	n := 0
 	for _, s := range solvers {
-		go func(s solverSpec) {
+		f := file
+		switch {
+		case s.variant == "pruned":
+			if fileP == "" {
+				continue
+			}
+			f = fileP
+		case s.name == "cvc5":
+			f = fileC
+		}
+		n++
+		go func(s solverSpec, f string) {
 			t0 := time.Now()
-			v, out := runSolver(ctx, s, file, timeoutS)
+			v, out := runSolver(ctx, s, f, timeoutS)
+			if s.variant == "pruned" && v != "unsat" {
+				v = "n/a" // only a proof from fewer hypotheses means something
+			}
 			ch <- res{s.name, v, out, time.Since(t0).Milliseconds()}
-		}(s)
+		}(s, f)
 	}
 	ob.Outputs = map[string]string{}
 	var definitive []res
-	for range solvers {
+	for i := 0; i < n; i++ {
 		r := <-ch
 		ob.Outputs[r.s] = r.verdict
 		if r.verdict == "sat" || r.verdict == "unsat" {
@@ -113,7 +252,7 @@ func solveOne(ob *Obligation, dir string, timeoutS int, crossCheck bool) {
 				cancel()
 				break
 			}
-			// cross-check: wait for a second opinion from a different family
+			// cross-check: wait for a second opinion
 			if len(definitive) >= 2 {
 				cancel()
 				break
